@@ -23,9 +23,9 @@ TRUSTED = ['pbt/cellsim.py', 'pbt/mastersim.py', 'pbt/fakezk.py', 'pbt/oracles.p
 BUDGET = {'quick': 6000, 'thorough': 160000}
 
 PROFILE = {
-    'weights': {'app': 14, 'clone': 6, 'prio': 4, 'down': 2, 'rm': 3, 'adv': 4, 'freezeflip': 3, 'renew': 3, 'renewold': 3, 'fill': 2, 'fillclone2': 3},
+    'weights': {'app': 14, 'clone': 6, 'prio': 4, 'down': 2, 'rm': 3, 'adv': 4, 'freezeflip': 3, 'renew': 3, 'renewold': 3, 'fill': 2, 'fillclone2': 3, 'reslot': 3},
     'force': ['clone', 'adv', 'freezeflip', 'renew', 'renewold', 'fill',
-              'fillclone2'],
+              'fillclone2', 'reslot'],
     'demand_hi': 10,
     'pre': (4, 16),
 }
